@@ -446,6 +446,25 @@ func c15Normalisation(r *an.Run) {
 // recognised by isBase): base-empty, first-is-<c>, base-is-<s>; polarity of !=
 // is encoded with a "not:" prefix. Constants are recorded in consts.
 func nameTestAtom(c ssa.Value, isBase func(ssa.Value) bool, consts map[string]bool) string {
+	if call, isCall := c.(*ssa.Call); isCall {
+		switch {
+		case an.IsCallTo(call, "strings.HasPrefix") && isBase(call.Call.Args[0]):
+			// HasPrefix(base, ".") is len(base) > 0 && base[0] == '.'
+			if s, ok := an.ConstString(call.Call.Args[1]); ok && len(s) == 1 {
+				consts["first:"+s] = true
+				return "first-is-" + s
+			}
+		case an.IsCallTo(call, "slices.Contains") && len(call.Call.Args) == 2 && isBase(call.Call.Args[1]):
+			// membership in a fixed list of names
+			if names := constantStringList(call.Call.Args[0]); len(names) > 0 {
+				for _, n := range names {
+					consts["name:"+n] = true
+				}
+				return "base-is-one-of-" + strings.Join(names, ",")
+			}
+		}
+		return ""
+	}
 	x, ok := c.(*ssa.BinOp)
 	if !ok || (x.Op != token.EQL && x.Op != token.NEQ) {
 		return ""
@@ -515,6 +534,9 @@ func c15ExcludedHelper(r *an.Run, h *ssa.Function, consts map[string]bool) {
 		k, isc := an.ConstBool(v)
 		if !isc {
 			// `return a || b` materialised: the returned value is the last test on the path
+			if _, isCall := v.(*ssa.Call); isCall && nameTestAtom(v, isBase, consts) != "" {
+				continue
+			}
 			if cmp, isCmp := v.(*ssa.BinOp); isCmp && nameTestAtom(cmp, isBase, consts) != "" {
 				// path ends by returning that comparison: both outcomes possible, consistent by construction
 				continue
@@ -530,3 +552,93 @@ func c15ExcludedHelper(r *an.Run, h *ssa.Function, consts map[string]bool) {
 }
 
 func strconvItoa(i int) string { return fmt.Sprintf("%d", i) }
+
+// constantStringList: v is a []string whose elements are all string constants
+// — a slice literal, or a package-level variable that is initialised with one
+// and never assigned or written through anywhere in the module.
+func constantStringList(v ssa.Value) []string {
+	fromArray := func(sl ssa.Value) []string {
+		s, ok := sl.(*ssa.Slice)
+		if !ok || s.Low != nil || s.High != nil {
+			return nil
+		}
+		al, ok := s.X.(*ssa.Alloc)
+		if !ok || al.Referrers() == nil {
+			return nil
+		}
+		var out []string
+		for _, u := range *al.Referrers() {
+			switch x := u.(type) {
+			case *ssa.IndexAddr:
+				for _, w := range *x.Referrers() {
+					st, isStore := w.(*ssa.Store)
+					if !isStore {
+						return nil
+					}
+					c, isc := an.ConstString(st.Val)
+					if !isc {
+						return nil
+					}
+					out = append(out, c)
+				}
+			case *ssa.Slice, *ssa.DebugRef:
+			default:
+				return nil
+			}
+		}
+		sort.Strings(out)
+		return out
+	}
+	if out := fromArray(v); out != nil {
+		return out
+	}
+	g := an.GlobalLoaded(v)
+	if g == nil || g.Pkg == nil {
+		return nil
+	}
+	var out []string
+	writes := 0
+	if an.Current == nil {
+		return nil
+	}
+	{
+		fns := an.Current.ModuleFuncs()
+		if init := g.Pkg.Func("init"); init != nil {
+			fns = append(fns, init) // the synthetic package initialiser
+		}
+		seenFn := map[*ssa.Function]bool{}
+		for _, h := range fns {
+			if seenFn[h] {
+				continue
+			}
+			seenFn[h] = true
+			for _, b := range h.Blocks {
+				for _, in := range b.Instrs {
+					switch x := in.(type) {
+					case *ssa.Store:
+						if x.Addr == ssa.Value(g) {
+							writes++
+							if h.Name() != "init" {
+								return nil
+							}
+							out = fromArray(x.Val)
+						}
+					case *ssa.IndexAddr:
+						// an element of the list addressed through the variable: a possible write
+						if an.GlobalLoaded(x.X) == g {
+							for _, w := range *x.Referrers() {
+								if st, isStore := w.(*ssa.Store); isStore && st.Addr == ssa.Value(x) {
+									return nil
+								}
+							}
+						}
+					}
+				}
+			}
+		}
+	}
+	if writes != 1 {
+		return nil
+	}
+	return out
+}
